@@ -107,7 +107,7 @@ def nontrivial(case):
     return False
 
 
-def unknown_label_cases(run, rng, n):
+def unknown_label_cases(run, rng, n, pid="C06"):
     """order-sensitive reductions with labels held in a DASK array and no expected_groups (discovered at compute time): blocks whose label
     sets are disjoint and not in ascending order, blocks whose labels are all missing, labels shared between blocks; chunked vs in-memory
     (values, returned labels in ascending order, dtype)"""
@@ -154,7 +154,7 @@ def unknown_label_cases(run, rng, n):
         if d == "REFUSED":
             run.extra["refused_cases"] = run.extra.get("refused_cases", 0) + 1
         elif d:
-            run.violation({"property": "C06", "kind": "labels discovered at compute time: the chunked evaluation differs from the in-memory evaluation: " + d, "request": c,
+            run.violation({"property": pid, "kind": "labels discovered at compute time: the chunked evaluation differs from the in-memory evaluation: " + d, "request": c,
                            "in_memory": [eager[1].tolist(), [g.tolist() for g in eager[2]], eager[3]],
                            "chunked": [chunked[1].tolist(), [g.tolist() for g in chunked[2]], chunked[3]] if chunked[0] == "Ok" else list(chunked)}, tag="unk")
     if c:
